@@ -103,18 +103,19 @@ LineBytes(k) == CASE k = "obj" -> <<123, 34, 97, 34, 58, 49, 125>>          \* {
                   [] k = "blank" -> <<>>
                   [] k = "spaces" -> <<SP>>
                   [] k = "viable" -> <<123, 34, 97, 34, 58>>                 \* {"a":      (prefix of a value)
+                  [] k = "arr2" -> <<91, 49, 44, 50, 93>>                    \* [1,2]     (a value per line AND one comma per line)
                   [] k = "closer" -> <<49, 125>>                             \* 1}        (completes "viable" on the NEXT line: still not a value per line)
                   [] k = "bad" -> <<123, 93>>                                \* {]
                   [] k = "objsp" -> <<SP, 123, 125, SP>>                     \* _{}_
-LineClass(k) == [complete |-> k \in {"obj", "arr", "num", "str", "objsp"}, blank |-> k \in {"blank", "spaces"},
-                 objarr |-> k \in {"obj", "arr", "objsp"}]
+LineClass(k) == [complete |-> k \in {"obj", "arr", "arr2", "num", "str", "objsp"}, blank |-> k \in {"blank", "spaces"},
+                 objarr |-> k \in {"obj", "arr", "arr2", "objsp"}]
 \* nd = [lines (sequence of classes), crlf, final]
 NdPhys(nd) == [i \in 1..Len(nd.lines) |-> [bytes |-> LineBytes(nd.lines[i]), rec |-> TRUE, n |-> 0]]
 NdBytes(nd) == Render([crlf |-> nd.crlf, final |-> nd.final], NdPhys(nd), 1)
 NdComplete(nd, hl, limit) == {i \in 1..Len(nd.lines) : CompleteLine([crlf |-> nd.crlf, final |-> nd.final], NdPhys(nd), i, hl, limit)}
 \* implementation-shaped acceptance (text.go:207-225): the lines of DropLastLine(header), each
 \* classified by its bytes (a line that is none of the listed spellings is neither complete nor blank)
-NdKindsAll == {"obj", "arr", "num", "str", "blank", "spaces", "viable", "closer", "bad", "objsp"}
+NdKindsAll == {"obj", "arr", "arr2", "num", "str", "blank", "spaces", "viable", "closer", "bad", "objsp"}
 ClassOfBytes(ln) == IF \E k \in NdKindsAll : LineBytes(k) = ln
                     THEN LineClass(CHOOSE k \in NdKindsAll : LineBytes(k) = ln)
                     ELSE [complete |-> FALSE, blank |-> FALSE, objarr |-> FALSE]
